@@ -12,7 +12,7 @@ import time
 VERIF = os.path.dirname(os.path.dirname(os.path.abspath(__file__)))
 REPO = os.environ.get("VERIF_REPO", "/repo")
 COQ = os.path.join(VERIF, "coq")
-GEN = os.path.join(VERIF, "gen")
+GEN = os.environ.get("VERIF_GEN") or os.path.join(VERIF, "gen")   # VERIF_GEN: a private scratch directory for a parallel run
 HARNESS = os.path.join(VERIF, "harness")
 MODULE = "github.com/smartcontractkit/wsrpc"
 
@@ -273,7 +273,7 @@ def known_findings():
 
 
 def write_replay(prop, kind, payload):
-    d = os.path.join(VERIF, "replays")
+    d = os.path.join(os.environ["VERIF_GEN"], "replays") if os.environ.get("VERIF_GEN") else os.path.join(VERIF, "replays")
     os.makedirs(d, exist_ok=True)
     body = dict(property=prop, kind=kind, **payload)
     h = hashlib.sha1(json.dumps(body, sort_keys=True, default=str).encode()).hexdigest()[:12]
@@ -284,7 +284,7 @@ def write_replay(prop, kind, payload):
 
 
 def write_evidence(prop, tier, seed, coverage, wall, violations, assumptions=None, level="proof"):
-    d = os.path.join(VERIF, "evidence")
+    d = os.environ.get("VERIF_EVIDENCE_DIR") or os.path.join(VERIF, "evidence")
     os.makedirs(d, exist_ok=True)
     ev = dict(property_id=prop, tier=tier, seed=int(seed), level=level, coverage=coverage,
               assumptions=assumptions or [], wall_s=round(wall, 2), violations=int(violations))
